@@ -45,15 +45,20 @@ def cases(tier, seed):
                     continue
                 third = tier == "thorough" and (fi + mi) % 3 == 0
                 k += 1
-                d = dict(mesh)
-                d.update(list(scope.geometries(nd))[k % 6])
-                d.update({"fields": fs, "time": times[k % len(times)], "seed": seed,
-                          "payload": ["hostile_nonan", "decay", "signed", "huge"][(fi + 2 * mi + nd) % 4],
-                          "layout": [scope.layouts(len(b), 'idrev')[-1] for b in mesh["levels"]]})
-                other = FIELDSETS[(fi + 3) % len(FIELDSETS)]
-                d2 = dict(meshes[(mi + 1) % len(meshes)])
-                d2.update({"fields": other, "time": times[(k + 1) % len(times)], "seed": seed + 1, "payload": "signed"})
-                out.append({"desc": d, "desc2": d2, "triples": third, "names": NAMES[k % len(NAMES)]})
+                # thorough: the full product time x payload kind for every (field set, mesh); quick: one rotating member
+                PAY = ["hostile_nonan", "decay", "signed", "huge"]
+                combos = [(k % len(times), (fi + 2 * mi + nd) % 4)]
+                if tier == "thorough":
+                    combos += [c for c in itertools.product(range(len(times)), range(4)) if c != combos[0]]
+                for ci, (ti, pi) in enumerate(combos):
+                    d = dict(mesh)
+                    d.update(list(scope.geometries(nd))[(k + ci) % 6])
+                    d.update({"fields": fs, "time": times[ti], "seed": seed, "payload": PAY[pi],
+                              "layout": [scope.layouts(len(b), 'idrev')[-1] for b in mesh["levels"]]})
+                    other = FIELDSETS[(fi + 3 + ci) % len(FIELDSETS)]
+                    d2 = dict(meshes[(mi + 1) % len(meshes)])
+                    d2.update({"fields": other, "time": times[(ti + 1) % len(times)], "seed": seed + 1, "payload": "signed"})
+                    out.append({"desc": d, "desc2": d2, "triples": third and ci == 0, "names": NAMES[(k + ci) % len(NAMES)]})
     # ONE field on levels with several boxes (the extrema are not in the first box), a square table (as many boxes as fields),
     # field names with blanks
     mb = scope.many_box_mesh()
